@@ -34,6 +34,7 @@ fn main() {
     let mut root = PathBuf::from(std::env::var("VERIF_ROOT").unwrap_or_else(|_| ".".into()));
     let mut replay: Option<PathBuf> = None;
     let mut mode: Option<String> = None;
+    let mut case_arg: Option<String> = None;
     let mut workers: usize = std::env::var("VERIF_WORKERS").ok().and_then(|s| s.parse().ok()).unwrap_or(16);
     let mut i = 2;
     while i < args.len() {
@@ -53,6 +54,10 @@ fn main() {
             "--replay" => {
                 i += 1;
                 replay = Some(PathBuf::from(&args[i]));
+            }
+            "--case" => {
+                i += 1;
+                case_arg = Some(args[i].clone());
             }
             "--mode" => {
                 i += 1;
@@ -80,6 +85,18 @@ fn main() {
         seed = v["seed"].as_u64().unwrap_or(seed);
         tier = if v["tier"].as_str() == Some("thorough") { Tier::Thorough } else { Tier::Quick };
         replay_case = v["case_id"].as_str().map(|s| s.to_string());
+        if mode.is_none() {
+            mode = v["mode"].as_str().map(|s| s.to_string());
+        }
+    }
+    if prop == "CANARY" {
+        // Deliberate defects that prove a sanitizer build is really instrumented (run by sanitize.sh
+        // before every sanitizer sub-run; a silent canary makes that sub-run "unavailable").
+        canary(mode.as_deref().unwrap_or(""));
+        return;
+    }
+    if replay_case.is_none() {
+        replay_case = case_arg;
     }
     mon::install_panic_hook();
     sched::install_pause_hook();
@@ -121,4 +138,49 @@ fn main() {
         }
     };
     std::process::exit(code);
+}
+
+static mut CANARY_CELL: u64 = 0;
+
+#[inline(never)]
+fn canary(kind: &str) {
+    match kind {
+        // unsynchronised writes from two threads -> ThreadSanitizer / Miri data race
+        "race" => {
+            let t = std::thread::spawn(|| unsafe {
+                for i in 0..1000u64 {
+                    let p = std::ptr::addr_of_mut!(CANARY_CELL);
+                    p.write_volatile(p.read_volatile() + i);
+                }
+            });
+            unsafe {
+                for i in 0..1000u64 {
+                    let p = std::ptr::addr_of_mut!(CANARY_CELL);
+                    p.write_volatile(p.read_volatile() + i);
+                }
+            }
+            t.join().unwrap();
+            println!("canary race done {}", unsafe { std::ptr::addr_of!(CANARY_CELL).read_volatile() });
+        }
+        // heap use after free -> AddressSanitizer / memcheck / Miri
+        "heap" => {
+            let b = Box::new([7u8; 64]);
+            let p = Box::into_raw(b);
+            let v = unsafe {
+                drop(Box::from_raw(p));
+                std::ptr::read_volatile(p as *const u8)
+            };
+            println!("canary heap done {v}");
+        }
+        // arithmetic overflow -> panics only when overflow checks are compiled in (dev profile)
+        "overflow" => {
+            let a: u64 = std::hint::black_box(u64::MAX);
+            let b: u64 = std::hint::black_box(1);
+            println!("canary overflow done {}", a + b);
+        }
+        _ => {
+            eprintln!("canary kinds: race | heap | overflow");
+            std::process::exit(2);
+        }
+    }
 }
